@@ -198,16 +198,17 @@ CATALOGUE = {
   (PQ, "        with self._parser_lock:\n            self._parser.feed(msg_bytes)", "        with RLock():\n            self._parser.feed(msg_bytes)", C),
  ],
  'C11': [
-  (PORTS, "                self._close()\n                self.closed = True", "                self._close()", C),
-  (PORTS, "                self._close()\n                self.closed = True", "                self.closed = True\n                self._close()", S),
+  (PORTS, "                    self._close()\n                    self.closed = True", "                    self._close()", C),
+  (PORTS, "                    self._close()\n                    self.closed = True", "                    self.closed = True\n                    self._close()", S),
   (PORTS, "        elif self.closed:\n            raise ValueError('send() called on closed port')", "        elif self.closed and False:\n            raise ValueError('send() called on closed port')", C),
   (PORTS, "        # If there is a message pending, return it right away.\n        with self._lock:\n            if self._messages:\n                return self._messages.popleft()\n\n        if self.closed:",
           "        if self.closed:", C),
   (PORTS, "                elif not block:\n                    return None", "                elif not block:\n                    sleep()\n                    return None", C),
-  (PORTS, "                    try:\n                        self.reset()\n                    except OSError:\n                        pass", "                    self.reset()", C),
+  (PORTS, "                        try:\n                            self.reset()\n                        except OSError:\n                            pass", "                        self.reset()", C),
   (PORTS, "        if self.closed:\n            return\n\n        for msg in reset_messages():", "        for msg in reset_messages():", C),
   (PORTS, "                                            block=False))", "                                            block=block))", C),
   (PORTS, "            except (OSError, ValueError):", "            except OSError:", C),
+  (PORTS, "            if not self.closed and not getattr(self, '_closing', False):", "            if not self.closed:", C),   # D20 again
  ],
  'C12': [
   (TRK, "    messages.sort(key=lambda msg: msg.time)", "    messages.sort(key=lambda msg: msg.time, reverse=True)", C),
